@@ -14,6 +14,7 @@ import (
 	"fmt"
 	"os"
 	"path/filepath"
+	"regexp"
 	"sort"
 	"strings"
 	"sync"
@@ -134,6 +135,10 @@ func (rn *runner) flush() {
 		if ps[0].flags != nil {
 			common := flagSet{true, true, true}
 			for _, p := range ps {
+				if p.flags == nil {
+					common = flagSet{}
+					continue
+				}
 				common.ExcludeImports = common.ExcludeImports && p.flags.ExcludeImports
 				common.ExcludeSourceInfo = common.ExcludeSourceInfo && p.flags.ExcludeSourceInfo
 				common.AsFDS = common.AsFDS && p.flags.AsFDS
@@ -148,6 +153,46 @@ func (rn *runner) flush() {
 			rn.r.Violate(sig, p.what, p.c)
 		}
 	}
+}
+
+var (
+	reQuoted = regexp.MustCompile(`"[^"]*"`)
+	rePos    = regexp.MustCompile(`:?\d+:\d+ ?`)
+	reNum    = regexp.MustCompile(`\d+`)
+)
+
+// errClass normalises the first line of a CLI failure into a stable signature component.
+func errClass(stderr string) string {
+	s := stderr
+	if i := strings.Index(s, "Failure: "); i >= 0 {
+		s = s[i+len("Failure: "):]
+	}
+	if i := strings.IndexByte(s, '\n'); i >= 0 {
+		s = s[:i]
+	}
+	s = reQuoted.ReplaceAllString(s, "Q")
+	s = rePos.ReplaceAllString(s, "")
+	s = reNum.ReplaceAllString(s, "N")
+	if i := strings.IndexByte(s, ','); i >= 0 {
+		s = s[:i]
+	}
+	s = strings.ReplaceAll(strings.TrimSpace(clip(s, 80)), " ", "_")
+	if s == "" {
+		s = "no-message"
+	}
+	return s
+}
+
+func isDecodeError(stderr string) bool {
+	return strings.Contains(stderr, "unmarshal") || strings.Contains(stderr, "could not reparse") || strings.Contains(stderr, "proto:")
+}
+
+// readFail records that buf could not read an image file (of its own making) in the given format. All
+// parts of the check share these signatures, so that one decoding defect is one signature.
+func (rn *runner) readFail(format string, fl flagSet, args []string, res bufx.CLIResult, ci caseInfo) {
+	ci.Stderr = res.Stderr
+	rn.fail("read-image/"+format+"/"+errClass(res.Stderr), 0, "", &fl,
+		fmt.Sprintf("buf cannot read an image it wrote itself: `buf %s` exits %d: %s", strings.Join(args, " "), res.ExitCode, clip(res.Stderr, 400)), ci)
 }
 
 func (rn *runner) cli(s *wsState, args ...string) bufx.CLIResult {
@@ -184,6 +229,17 @@ func run(r *evid.Run) {
 	rn := &runner{r: r, ctx: ctx, pool: pool, scratch: scratch, counts: map[string]int{}}
 
 	defs := workspaces(r.Quick())
+	if only := os.Getenv("VERIF_C11_WS"); only != "" {
+		// debugging aid: restrict to some workspaces (the run is then marked incomplete)
+		var keep []*wsDef
+		for _, d := range workspaces(false) {
+			if strings.Contains(","+only+",", ","+d.Name+",") {
+				keep = append(keep, d)
+			}
+		}
+		defs = keep
+		r.Incomplete("restricted to workspaces " + only)
+	}
 	states := make([]*wsState, len(defs))
 	r.ParallelFor(len(defs), 0, func(i int) { states[i] = rn.setup(defs[i]) })
 	var items []func()
@@ -209,6 +265,10 @@ func run(r *evid.Run) {
 	rn.mu.Unlock()
 	pool.mu.Lock()
 	r.Set("cli_calls", pool.calls)
+	for _, k := range bufx.SortedKeys(pool.nCmd) {
+		r.Set("cli_calls_"+k, pool.nCmd[k])
+		r.Set("cli_cpu_ms_per_call_"+k, pool.cpuMS[k]/max(pool.nCmd[k], 1))
+	}
 	if pool.died > 0 {
 		r.Set("cli_workers_died", pool.died)
 	}
@@ -532,8 +592,7 @@ func (rn *runner) roundTrip(s *wsState, e encRef, fl flagSet, style string, cust
 	}
 	rd := rn.cli(s, rargs...)
 	if rd.ExitCode != 0 {
-		ci.Stderr = rd.Stderr
-		rn.fail(group+"/read-exit", 0, "", &fl, fmt.Sprintf("buf cannot read back its own output: `buf %s` exits %d: %s", strings.Join(rargs, " "), rd.ExitCode, clip(rd.Stderr, 400)), ci)
+		rn.readFail(e.format, fl, rargs, rd, ci)
 		return
 	}
 	got, err := decodeWith([]byte(rd.Stdout), s.res)
@@ -577,6 +636,10 @@ func (rn *runner) transcode(s *wsState, f1, f2 string, k int) {
 	for i, c := range cmds {
 		last = rn.cli(s, c...)
 		if last.ExitCode != 0 {
+			if i > 0 && isDecodeError(last.Stderr) {
+				rn.readFail([]string{f1, f2}[i-1], flagSet{}, c, last, ci)
+				return
+			}
 			ci.Stderr = last.Stderr
 			rn.fail(fmt.Sprintf("%s/exit-step%d", group, i+1), 0, "", nil, fmt.Sprintf("`buf %s` exits %d: %s", strings.Join(c, " "), last.ExitCode, clip(last.Stderr, 400)), ci)
 			return
@@ -617,6 +680,10 @@ func (rn *runner) imageFlags(s *wsState, fl flagSet) {
 		group := "flags-on-" + route.name
 		res := rn.cli(s, args...)
 		if res.ExitCode != 0 {
+			if route.name == "image" && isDecodeError(res.Stderr) {
+				rn.readFail("binpb", fl, args, res, ci)
+				continue
+			}
 			ci.Stderr = res.Stderr
 			rn.fail(group+"/exit", 0, "", &fl, fmt.Sprintf("`buf %s` exits %d: %s", strings.Join(args, " "), res.ExitCode, clip(res.Stderr, 400)), ci)
 			continue
@@ -826,7 +893,9 @@ func (rn *runner) selectionItems(s *wsState) []func() {
 	lb := s.v0OK && len(s.def.Modules) == 1 && s.def.Modules[0].Dir == "."
 	for i, sel := range s.selections(2, 2) {
 		small := len(sel.P) <= 1 && len(sel.X) <= 1
-		doLB := lb && (!quick || len(sel.X) <= 1)
+		single := len(sel.P)+len(sel.X) <= 1
+		// lint/breaking calls cost ~10x a build call: the quick tier takes |P|<=1,|X|<=1 for them
+		doLB := lb && !sel.same && (!quick || small)
 		items = append(items, func() {
 			rn.selectBuild(s, sel, i, small)
 			if doLB {
@@ -834,7 +903,8 @@ func (rn *runner) selectionItems(s *wsState) []func() {
 				rn.selectCheck(s, sel, "breaking", "")
 			}
 		})
-		if lb && small {
+		// the rule-set menu (--config on both routes): selections with at most one path in the quick tier
+		if lb && !sel.same && ((quick && single) || (!quick && small)) {
 			for _, c := range lintMenu {
 				items = append(items, func() { rn.selectCheck(s, sel, "lint", c) })
 			}
@@ -936,6 +1006,14 @@ func (rn *runner) selectBuild(s *wsState, sel selection, idx int, small bool) {
 	for _, rt := range routes {
 		if rt.out.exit != 0 {
 			allOK = false
+			if strings.HasPrefix(rt.name, "image") && isDecodeError(rt.out.err) {
+				format := "binpb"
+				if rt.name == "image-yaml-gz" {
+					format = "yaml"
+				}
+				rn.readFail(format, flagSet{}, rt.out.args, bufx.CLIResult{ExitCode: rt.out.exit, Stderr: rt.out.err}, ci)
+				continue
+			}
 			ci.Stderr = rt.out.err
 			rn.fail("select-build/"+rt.name+"-route/exit", rank, shape, nil,
 				fmt.Sprintf("selection with targets %v: %s route exits %d: %s", targets, rt.name, rt.out.exit, clip(rt.out.err, 300)), ci)
